@@ -13,7 +13,7 @@ from .. import fam as F
 from .. import canon as C
 from .. import slot
 from ..report import Reporter
-from .c09 import TAG, materialize, Plain, Cmp
+from .c09 import TAG, materialize, Plain, Cmp, IndexLike, FloatLike
 
 LEVEL = 'exploration'
 RULE = ('for every family x kind x implementation x base container (empty, single leaf, multi-leaf at '
@@ -43,6 +43,7 @@ def int_alphabet():
 
 OTHER = [0.0, -0.0, 0.1, 1.5, -1.5, 16777217.0, FLT_MAX, math.nextafter(FLT_MAX, math.inf), 1e39,
          -1e39, 1e-45, 1e-50, (TAG, 'inf'), (TAG, 'ninf'), (TAG, 'nan'),
+         '7', '1.5', ' 4 ', 'nan', '1e3', b'7', (TAG, 'index'), (TAG, 'floatable'),
          '', 'a', 'ab', b'', b'a', b'ab', b'abc', b'abcde', b'abcdef', b'abcdefg', b'abcdefgh',
          None, (), (1, 2), (TAG, 'obj'), (TAG, 'cmp')]
 
@@ -218,6 +219,8 @@ def job(fam, impl):
                 cl = classify(kt if role == 'key' else vt, x)
                 if cl[0] == 'skip':
                     continue
+                if isinstance(x, (IndexLike, FloatLike)) and (kt if role == 'key' else vt) in 'OV':
+                    continue    # meant for the typed slots (as object keys they are just `obj` again)
                 for bname in bases:
                     for ep in eps:
                         if (ep in ('ctor-dict', 'ctor-pairs', 'ctor-list', 'setstate') or
@@ -321,6 +324,8 @@ def job(fam, impl):
                     cl = classify(kt, x)
                     if cl[0] != 'no':
                         continue
+                    if isinstance(x, (IndexLike, FloatLike)) and kt == 'O':
+                        continue
                     for bname in bases:
                         t = build(bname)
                         probes = [('in', lambda: x in t, False), ('has_key', lambda: bool(t.has_key(x)), False)]
@@ -384,6 +389,8 @@ def vclass(x):
             return 'float-exact' if f32(x) == x else 'float-inexact'
         except OverflowError:
             return 'float-beyond-f32'
+    if isinstance(x, (IndexLike, FloatLike)):
+        return 'conversion-protocol-object'
     if isinstance(x, Plain):
         return 'obj'
     return type(x).__name__
